@@ -19,13 +19,17 @@ package ring
 //@ # read-only instance is ever selected; the inconsistent-token panic is unreachable on a well-formed ring.
 //@ assume func Ring.buildRingForTheShard
 //@   modifies nothing
-//@   ensures result != nil
+//@   ensures result != nil && result.ringDesc != nil && same(result.ringDesc.Ingesters, shard)
 //@
 //@ func Ring.shuffleShard
 //@   property C12 C05
 //@   requires ringRep(r) && byZoneRep(r) && size > 0 && len(r.ringTokens) > 0
 //@   requires forall t uint32 :: in(t, r.ringInstanceByToken) ==> in(r.ringInstanceByToken[t].InstanceID, r.ringDesc.Ingesters)
 //@   requires forall i int :: 0 <= i && i < len(r.ringZones) ==> in(r.ringZones[i], r.ringTokensByZone) && len(r.ringTokensByZone[r.ringZones[i]]) > 0
+//@   # whatever path returns (the shortcuts that hand back the ring itself included): without look-back no member of the
+//@   # returned ring is read-only, and every member is an unchanged entry of this ring
+//@   ensures  no_readonly: lookbackPeriod == 0 && result != nil && result.ringDesc != nil ==> (forall id string :: in(id, result.ringDesc.Ingesters) ==> !result.ringDesc.Ingesters[id].ReadOnly)
+//@   ensures  members: result != nil && result.ringDesc != nil ==> (forall id string :: in(id, result.ringDesc.Ingesters) ==> in(id, r.ringDesc.Ingesters) && result.ringDesc.Ingesters[id] == r.ringDesc.Ingesters[id])
 //@   at before@ring.Ring.buildRingForTheShard: assert forall id string :: in(id, shard) ==> in(id, r.ringDesc.Ingesters) && shard[id] == r.ringDesc.Ingesters[id]
 //@   at before@ring.Ring.buildRingForTheShard: assert lookbackPeriod == 0 ==> (forall id string :: in(id, shard) ==> !shard[id].ReadOnly)
 //@   loop 0 invariant !isnil(shard) && (forall id string :: in(id, shard) ==> in(id, r.ringDesc.Ingesters) && shard[id] == r.ringDesc.Ingesters[id]) && (lookbackPeriod == 0 ==> (forall id string :: in(id, shard) ==> !shard[id].ReadOnly))
